@@ -1556,6 +1556,27 @@ template <typename Key, typename Value, class INode>
   UNODB_DETAIL_ASSERT(is_node_min_size);
 
   if constexpr (std::is_same_v<INode, olc_inode_4<Key, Value>>) {
+    // The remaining child takes this node's place. If it is an inode, its key
+    // prefix is extended in place (leave_last_child), so it must be
+    // write-locked like any other node that is modified: otherwise a
+    // concurrent reader that has already validated this node and is looking at
+    // the remaining child sees the new prefix under an unchanged version.
+    // Take its read lock before any upgrade (nothing is write-locked while
+    // this may wait) and upgrade it last.
+    const auto remaining_child{
+        inode.get_child(static_cast<std::uint8_t>(child_i == 0 ? 1 : 0))};
+    if (UNODB_DETAIL_UNLIKELY(!node_critical_section.check())) return {};
+    const auto remaining_child_is_inode{remaining_child.type() !=
+                                        node_type::LEAF};
+    optimistic_lock::read_critical_section remaining_child_critical_section;
+    if (remaining_child_is_inode) {
+      remaining_child_critical_section =
+          node_ptr_lock(remaining_child).try_read_lock();
+      if (UNODB_DETAIL_UNLIKELY(
+              remaining_child_critical_section.must_restart()))
+        return {};  // LCOV_EXCL_LINE
+    }
+
     const optimistic_lock::write_guard parent_guard{
         std::move(parent_critical_section)};
     if (UNODB_DETAIL_UNLIKELY(parent_guard.must_restart())) return {};
@@ -1566,6 +1587,14 @@ template <typename Key, typename Value, class INode>
     optimistic_lock::write_guard child_guard{
         std::move(*child_critical_section)};
     if (UNODB_DETAIL_UNLIKELY(child_guard.must_restart())) return {};
+
+    std::optional<optimistic_lock::write_guard> remaining_child_guard;
+    if (remaining_child_is_inode) {
+      remaining_child_guard.emplace(
+          std::move(remaining_child_critical_section));
+      if (UNODB_DETAIL_UNLIKELY(remaining_child_guard->must_restart()))
+        return {};  // LCOV_EXCL_LINE
+    }
 
     auto current_node{olc_art_policy<Key, Value>::make_db_inode_reclaimable_ptr(
         &inode, db_instance)};
